@@ -60,6 +60,11 @@ func Fetch(
 
 	hdr, err := tr.Next()
 	if err != nil {
+		// The index says that a member starts here; if the tape ends instead, it has been cut
+		if err == io.EOF {
+			return io.ErrUnexpectedEOF
+		}
+
 		return err
 	}
 
